@@ -16,7 +16,7 @@ RULE = ('ALL token sequences up to the length bound over the 14-token alphabet {
 ASSUMPTIONS = ['rejecting a text the reference accepts is allowed by the statement (only the parser exception may be raised)',
                'arity table written by hand from the Excel function reference (+ ROUNDUP/ROUNDDOWN with an omitted digit '
                'count and COUNTBLANK with several areas, which the project\'s own fixtures pin)',
-               'whitespace is not inserted between a function name and its opening bracket (Excel rejects that)']
+               'whitespace between a function name and its opening bracket is judged like every other token boundary (same outcome as without it)']
 
 TOK = ['1', 'A1', '"s"', '+', '-', '*', '=', '<', '&', '%', '(', ')', ',', 'SUM(']
 TOK_SMALL = ['1', 'A1', '+', '-', '=', '%', '(', ')', ',', 'SUM(']
@@ -118,8 +118,9 @@ def boundaries(formula):
 
 
 def ws_allowed(toks, k):
-    """may whitespace go between toks[k-1] and toks[k]?"""
-    return not (toks[k] == '(' and re.fullmatch(r'[A-Z][A-Z0-9.]*', toks[k - 1]))
+    """may whitespace go between toks[k-1] and toks[k]?  Everywhere: the library lexes a function name and its opening
+    bracket as two tokens, and the oracle of this phase is differential (same outcome as the text without the whitespace)."""
+    return True
 
 
 _EXCEL = None
